@@ -65,6 +65,7 @@ def effective_hamiltonian(n, n_ops, d):
 
 
 CONCRETE_UNITS = [(0.6, 0.8, 0.0), (0.8, -0.6, 0.0), (0.0, 0.6, 0.8)]
+CONCRETE_UNITS2 = [(0.6, 0.8), (0.8, -0.6), (0.0, 1.0)]
 
 
 def jump(n, n_ops, d, symbolic_state=True):
@@ -79,7 +80,8 @@ def jump(n, n_ops, d, symbolic_state=True):
             A = sym_mps(env, "a", n, d, [1] * (n - 1))
         else:
             A = [T.tensor([3.0, 4.0j, 0.0][:d] if d == 2 else [2.0, 1.0j, 2.0], dtype=T.complex128).reshape(1, d, 1)]
-            A += [T.tensor(list(CONCRETE_UNITS[(k - 1) % 3][:d]) if d == 2 else [0.0, 0.6, 0.8], dtype=T.complex128).reshape(1, d, 1) for k in range(1, n)]
+            # (unit vectors: the factors right of the centre must be isometries for the state to be canonical)
+            A += [T.tensor(list(CONCRETE_UNITS2[(k - 1) % 3]) if d == 2 else [0.0, 0.6, 0.8], dtype=T.complex128).reshape(1, d, 1) for k in range(1, n)]
         for k in range(1, n if symbolic_state else 0):
             # centre 0: the other factors are isometries; parametrised by angles (no sqrt atoms)
             b = T.tensor(env.real(f"beta{k}", lo=-3.2, hi=3.2), dtype=T.float64)
@@ -185,7 +187,7 @@ META = {
     ),
     "outside": [
         "THE PROPERTY'S CORE: convergence of trajectory averages to Lindblad dynamics (needs the RNG and the full numeric evolution)",
-        "entangled states in do_random_quantum_jump (multi-column QR); N > 3; more than 2 jump operators",
+        "entangled states in do_random_quantum_jump (multi-column QR); N > 4 (N > 5 for the effective Hamiltonian); more than 2 jump operators",
     ],
     "assumptions": ["random.uniform returns a value in the open interval; random.choices returns one of the candidates"],
 }
@@ -194,9 +196,9 @@ META = {
 def cases(tier):
     out = []
     q = tier == "quick"
-    for n, k, d in ([(2, 1, 2), (3, 2, 2), (2, 1, 3)] if q else [(2, 2, 2), (3, 2, 2), (4, 1, 2), (2, 2, 3), (3, 1, 3)]):
+    for n, k, d in ([(2, 1, 2), (3, 2, 2), (2, 1, 3)] if q else [(2, 2, 2), (3, 2, 2), (4, 1, 2), (4, 2, 2), (5, 1, 2), (2, 2, 3), (3, 1, 3), (3, 2, 3)]):
         out.append(Case(f"effective_hamiltonian_n{n}_ops{k}_d{d}", effective_hamiltonian(n, k, d), covers=COVERS, bounds={"atoms": n, "jump_ops": k, "dim": d}, canaries=["plus_i"], weight=(d**n) ** 2))
-    for n, k, d in ([(2, 1, 2), (3, 2, 2)] if q else [(2, 2, 2), (3, 2, 2), (2, 1, 3), (3, 1, 3)]):
+    for n, k, d in ([(2, 1, 2), (3, 2, 2)] if q else [(2, 2, 2), (3, 2, 2), (4, 1, 2), (2, 1, 3), (3, 1, 3)]):
         out.append(
             Case(f"jump_concrete_state_n{n}_ops{k}_d{d}", jump(n, k, d, symbolic_state=False), covers=COVERS, bounds={"atoms": n, "jump_ops": k, "dim": d, "state": "concrete product state, symbolic jump operators"}, canaries=["weights_mirrored"], weight=(d**n) * 20, timeout_ms=60000, deadline_s=1500)
         )
